@@ -35,7 +35,7 @@ from gotranx.schemes import get_scheme
 def run_worker(path, seed):
     env = dict(os.environ)
     env["PYTHONHASHSEED"] = str(seed)
-    env["PYTHONPATH"] = "/verif/harness:" + str(core.REPO / "src")
+    env["PYTHONPATH"] = str(core.VERIF / "harness") + ":" + str(core.REPO / "src")
     r = subprocess.run([core.PY, str(core.VERIF / "harness" / "c09_worker.py"), path], capture_output=True, text=True, env=env,
                        timeout=1200)
     if r.returncode != 0:
